@@ -17,10 +17,19 @@ class Lost(Exception):
 IDENT = re.compile(r"[A-Za-z_][A-Za-z0-9_]*")
 
 
+def kind_mask(src):
+    """kinds[i]: 1 code, 0 comment, 2 string / char literal"""
+    return _scan(src, True)
+
+
 def code_mask(src):
     """mask[i] is True iff src[i] is code (outside comments, strings, chars)."""
+    return [k == 1 for k in _scan(src, True)]
+
+
+def _scan(src, _kinds):
     n = len(src)
-    mask = [True] * n
+    mask = [1] * n
     i = 0
     while i < n:
         c = src[i]
@@ -29,7 +38,7 @@ def code_mask(src):
             if j < 0:
                 j = n
             for k in range(i, j):
-                mask[k] = False
+                mask[k] = 0
             i = j
             continue
         if c == "/" and i + 1 < n and src[i + 1] == "*":
@@ -45,7 +54,7 @@ def code_mask(src):
                 else:
                     j += 1
             for k in range(i, j):
-                mask[k] = False
+                mask[k] = 0
             i = j
             continue
         # raw strings r"..", r#".."#, br".."
@@ -58,7 +67,7 @@ def code_mask(src):
                 raise Lost("unterminated raw string")
             j += len(close)
             for k in range(i, j):
-                mask[k] = False
+                mask[k] = 2
             i = j
             continue
         if c == '"' or (c == "b" and i + 1 < n and src[i + 1] == '"' and (i == 0 or not (src[i - 1].isalnum() or src[i - 1] == "_"))):
@@ -69,7 +78,7 @@ def code_mask(src):
                 j += 1
             j += 1
             for k in range(i, j):
-                mask[k] = False
+                mask[k] = 2
             i = j
             continue
         if c == "'":
@@ -81,12 +90,12 @@ def code_mask(src):
                     j += 1
                 j += 1
                 for k in range(i, j):
-                    mask[k] = False
+                    mask[k] = 2
                 i = j
                 continue
             if i + 2 < n and src[i + 2] == "'":
                 for k in range(i, i + 3):
-                    mask[k] = False
+                    mask[k] = 2
                 i += 3
                 continue
             # lifetime: leave as code
